@@ -24,6 +24,12 @@ index or the carried row-id column; same row count otherwise); with jointDrop :=
 missing from the output, every leaf equals `model_matrix(leaf terms, data, drop_rows=set(jointDrop))`,
 `result.model_spec[path].get_model_matrix(data, drop_rows=set(jointDrop))` and the leaf at the same
 path of `materializer.get_model_matrix(result.model_spec, drop_rows=set(jointDrop))` (names, values, rows).
+Regeneration through the attached STRUCTURED spec object (where `ModelSpecs.get_model_matrix` itself
+decides between joint and per-spec generation): `result.model_spec.get_model_matrix(data)`,
+`model_matrix(result.model_spec, data)` and `model_matrix(result, data)` on the same data (the
+caller's set supplied again) must have the formula's shape, row-aligned parts and equal the first
+build part by part; on a second frame with a different null pattern (`data2`) they must have the
+same shape and row-aligned parts. The model's joint replay is compared with these results too.
 """
 from __future__ import annotations
 
@@ -80,7 +86,9 @@ RULE = (
     "factors shared between leaves on purpose; structure = string `l1 | l2 ~ r1 | r2 | r3`, keyword/tuple/list structure via "
     "Formula(**kw) nested up to depth 3, strings with `~` under keywords, Structured with root key first; x ensure_full_rank "
     "x output pandas/numpy/sparse x cluster_by x caller drop set x random iteration order of the factor set x entry point "
-    "(materializer.get_model_matrix / Formula.get_model_matrix / model_matrix; the last two only without a caller set). "
+    "(materializer.get_model_matrix / Formula.get_model_matrix / model_matrix; the last two only without a caller set); "
+    "every case carries a second frame (same variables and levels, fresh values, different null pattern) for the "
+    "regeneration through result.model_spec. "
     "non-trivial = at least two leaves and at least one null in a variable that one leaf uses and another does not; "
     "distinct by canonical JSON"
 )
@@ -154,6 +162,23 @@ def gen_data(rng, n):
         p = rng.choice([0.0, 0.0, 0.2])
         codes = [None if rng.random() < p else rng.randrange(k) for _ in range(n)]
         cat[v] = {"levels": pool[:k], "codes": codes, "declared": rng.random() < 0.5}
+    return {"nrows": n, "num": num, "cat": cat}
+
+
+def gen_data2(rng, data):
+    """a second frame of the same length over the same variables and category levels, with fresh values and a
+    DIFFERENT null pattern (nulls again spread over the variables of different parts)"""
+    n = data["nrows"]
+    num, cat = {}, {}
+    for v in NUMS:
+        p = rng.choice([0.0, 0.15, 0.35])
+        num[v] = [None if rng.random() < p else fstr(rng.randint(-4, 6)) for _ in range(n)]
+    for v in CATS:
+        ci = data["cat"][v]
+        k = len(ci["levels"])
+        p = rng.choice([0.0, 0.2])
+        cat[v] = {"levels": ci["levels"], "codes": [None if rng.random() < p else rng.randrange(k) for _ in range(n)],
+                  "declared": ci["declared"]}
     return {"nrows": n, "num": num, "cat": cat}
 
 
@@ -342,6 +367,7 @@ def gen_parts_case(rng, tier):
     return dict(
         kind="parts",
         data=data,
+        data2=gen_data2(rng, data),
         fs=fs,
         efr=rng.random() < 0.6,
         output=output,
@@ -354,6 +380,8 @@ def gen_parts_case(rng, tier):
 
 def gen_badname_case(rng):
     c = gen_parts_case(rng, "quick")
+    while not leaves_of(c["fs"]):  # the rare structure without any leaf has nothing to rename
+        c = gen_parts_case(rng, "quick")
     lv = [l for l in leaves_of(c["fs"])]
     tgt = rng.choice(lv)
     (tgt["leaf"] if "leaf" in tgt else tgt["list"]).append(rng.choice(["nosuch", "nosuch:x", "A:nosuch"]))
@@ -710,6 +738,32 @@ def impl(c):
         except Exception as e:
             out["jtree"] = None
             out["jreplay"] = {"error": type(e).__name__, "msg": str(e)[:160]}
+    # regeneration through the attached STRUCTURED spec object (`ModelSpecs.get_model_matrix` decides by itself
+    # whether the parts are generated jointly): on the same data (the caller's set, if any, supplied again) …
+    def kw():
+        return {} if c["caller"] is None else {"drop_rows": set(c["caller"])}
+
+    routes = [
+        ("result.model_spec.get_model_matrix(data)", lambda d, k: mm.model_spec.get_model_matrix(d, context={}, **k)),
+        ("model_matrix(result.model_spec, data)", lambda d, k: model_matrix(mm.model_spec, d, context={}, **k)),
+        ("model_matrix(result, data)", lambda d, k: model_matrix(mm, d, context={}, **k)),
+    ]
+
+    def regen(fn, d, k):
+        try:
+            r = fn(d, k)
+            rl = []
+            tree = tree_of(r, lambda x: (rl.append(x), len(rl) - 1)[1])
+            return {"tree": tree, "leaves": [matrix_obs(x, c["output"]) for x in rl]}
+        except Exception as e:
+            return {"error": type(e).__name__, "msg": str(e)[:160]}
+
+    out["regen"] = [[name, regen(fn, df, kw())] for name, fn in routes]
+    # … and, last (a replay may add encoder state to the shared spec objects), on a second frame with a different null pattern
+    out["regen2"] = []
+    if c.get("data2") is not None:
+        df2 = make_frame(c["data2"])
+        out["regen2"] = [[name, regen(fn, df2, {})] for name, fn in routes[:2]]
     return out
 
 
@@ -883,6 +937,15 @@ def agree(c, o, m):
                 w = _same_matrix(_strip_rows(_model_leaf_obs(ms), ol), ol, tol, f"joint replay leaf {j} (model vs impl)", structure=True, state=True)
                 if w:
                     return w
+            for name, rg in o.get("regen", []):
+                if "error" in rg:
+                    return f"{name} raised {rg['error']} ({rg.get('msg', '')}), the model's joint replay did not"
+                if m["jreplay"]["tree"] != rg["tree"]:
+                    return f"{name}: tree {rg['tree']} vs model's joint replay {m['jreplay']['tree']}"
+                for j, (ms, ol) in enumerate(zip(m["jreplay"]["leaves"], rg["leaves"])):
+                    w = _same_matrix(_strip_rows(_model_leaf_obs(ms), ol), ol, tol, f"{name} leaf {j} (model's joint replay vs impl)", structure=True)
+                    if w:
+                        return w
         for j, ms in enumerate(m["replay"]):
             w = _same_matrix(_strip_rows(_model_leaf_obs(ms), o["replay"][j]), o["replay"][j], tol,
                              f"replay of spec {j} (model vs impl)", structure=True)
@@ -930,9 +993,12 @@ def oracle(c, o):
         if r != known[0]:
             return f"parts contain different rows: {known[0]} vs {r}"
     jd = o["joint_drop_from_rows"]
+    tol = _inexact(c)
+    w = _oracle_regen(c, o, sf, fp, mp, tol)
+    if w:
+        return w
     if jd is None:
         return None
-    tol = _inexact(c)
     for path, fi in fp.items():
         ml = o["leaves"][mp[path]]
         # the leaf holds that part's terms
@@ -960,6 +1026,45 @@ def oracle(c, o):
                          f"part at {path} vs the same part of materializer.get_model_matrix(result.model_spec, drop_rows={jd})")
         if w:
             return w
+    return None
+
+
+def _aligned(leaves):
+    """all parts contain the same rows: None or a description of the misalignment"""
+    counts = [lf["nrows"] for lf in leaves]
+    if len(set(counts)) > 1:
+        return f"parts have different numbers of rows: {counts}"
+    known = [lf["rows"] for lf in leaves if lf["rows"] is not None]
+    for r in known:
+        if r != known[0]:
+            return f"parts contain different rows: {known[0]} vs {r}"
+    return None
+
+
+def _oracle_regen(c, o, sf, fp, mp, tol):
+    """5. regenerating from the attached STRUCTURED spec on the same data gives the same shape, row-aligned parts
+    and the parts of the first build; 6. on other data (different null pattern) the same shape and row-aligned parts"""
+    for name, rg in o.get("regen", []):
+        if "error" in rg:
+            return f"{name} raised {rg['error']}: {rg.get('msg', '')} (the first build on the same data succeeded)"
+        if shape_unordered(rg["tree"]) != sf:
+            return f"{name} has shape {rg['tree']}, the formula {o['ftree']}"
+        w = _aligned(rg["leaves"])
+        if w:
+            return f"{name}: {w}"
+        rp = paths_of(rg["tree"])
+        for path in fp:
+            w = _same_matrix(o["leaves"][mp[path]], rg["leaves"][rp[path]], tol, f"part at {path} of the first build vs the same part of {name}")
+            if w:
+                return w
+    for name, rg in o.get("regen2", []):
+        if "error" in rg:
+            continue  # whether a spec can be replayed on OTHER data at all is C04/C09's question
+        if shape_unordered(rg["tree"]) != sf:
+            return f"{name} on a second frame has shape {rg['tree']}, the formula {o['ftree']}"
+        w = _aligned(rg["leaves"])
+        if w:
+            return f"{name} on a second frame with another null pattern: {w}"
     return None
 
 
